@@ -213,6 +213,24 @@ def check(run):
                                lambda rec, m: (0,), quality=False, spans=True, nested=True)
     judge_traces(run, "C11", trs, meta, "c11")
     report_notimpl(run, meta)
+    # every query type, also those whose scores nothing fixes (negation, phrases, multi-term queries): the cursor
+    # protocol is the same - against the matcher's own list, on segments with deletions too
+    def anyq(r):
+        if r.random() < 0.35:
+            # negations of rare terms (few postings: the negated matcher runs out early and gets replaced)
+            t = {"op": "term", "f": r.choice(world.TEXT_FIELDS), "t": world.rand_term(r), "b4": 4}
+            form = r.choice(["not", "not", "andnot-every", "and-not", "or-not"])
+            if form == "not":
+                return {"op": "not", "q": t}
+            if form == "andnot-every":
+                return {"op": "andnot", "a": {"op": "every", "f": "", "b4": 4}, "b": t}
+            other = {"op": "term", "f": r.choice(world.TEXT_FIELDS), "t": world.rand_term(r), "b4": 4}
+            return {"op": "and" if form == "and-not" else "or", "kids": [other, {"op": "not", "q": t}], "b4": 4}
+        return world.rand_query(r, r.randrange(0, 3), scored_only=False, ops=NOFUZZY)
+    trs2, meta2, _ = collect(run, rng, 6 if quick else 60, 30 if quick else 40, "exact", lambda rec, m: (0,),
+                             quality=False, scored_only=False, ndocs=(8, 16), qgen=anyq)
+    judge_traces(run, "C11", trs2, meta2, "c11-any")
+    report_notimpl(run, meta2)
     from harness.props import c01
     rejects = qobs.judge(run, cases)
     for ci, qi, oi, exp in rejects:
